@@ -1474,7 +1474,7 @@ func (self *ReplicationServer) SendProcess() error {
 			err = bufferQueue.Pop(self.bufferCursor)
 			if err != nil {
 				if err != io.EOF {
-					atomic.AddUint32(&self.manager.serverActiveCount, 0xffffffff)
+					// this channel already left the active count above
 					return err
 				}
 				<-self.pulledWaiter
